@@ -321,7 +321,7 @@ class Run:
 
 
 def load_known():
-    p = os.path.join(VERIF, "known_findings.json")
+    p = os.environ.get("VERIF_KNOWN_FINDINGS") or os.path.join(VERIF, "known_findings.json")
     if not os.path.exists(p):
         return []
     j = json.load(open(p))
@@ -338,6 +338,9 @@ def finish(run, level="exploration"):
             if k.get("signature") and k["signature"] == v["sig"]:
                 hit = k
                 break
+            if k.get("signature_prefix") and v["sig"].startswith(k["signature_prefix"]):
+                hit = k
+                break
         (kn if hit else new).append((v, hit))
     # de-duplicate by signature for reporting
     seen = set()
@@ -349,10 +352,11 @@ def finish(run, level="exploration"):
         new_unique.append(v)
     seen_k = set()
     for v, k in kn:
-        if k["signature"] in seen_k:
+        ksig = k.get("signature") or k.get("signature_prefix")
+        if ksig in seen_k:
             continue
-        seen_k.add(k["signature"])
-        print("KNOWN-FINDING: property=%s %s" % (run.pid, k.get("description", k["signature"])))
+        seen_k.add(ksig)
+        print("KNOWN-FINDING: property=%s %s" % (run.pid, k.get("description", ksig)))
     rc = 0
     replay_paths = []
     if new_unique:
